@@ -21,7 +21,8 @@ alphabet of the Coq model (coq/Model/C10.v)
 
 with p one of  PIn j | POut i | PTmp i | POther j  (the role of the path in
 the task at hand), and can inject a fault at operation index k: raise
-OSError *instead of* performing the operation, or os._exit *before* it.
+OSError *instead of* performing the operation ("raise"), os._exit *before*
+it ("kill"), or perform it and then report it as failed ("raise-after").
 
 emit_v() renders recorded traces as coq/Gen/TaskTraces.v.
 """
@@ -70,12 +71,22 @@ class Recorder:
             self.fired = True
             if self.fault_kind == "kill":
                 os._exit(KILL_EXIT)
+            if self.fault_kind == "raise-after":
+                # the operation is performed, then reported as failed
+                self.ops.append((kind, path, path2, detail))
+                return True
             self.ops.append(("FAULT:" + kind, path, path2, detail))
             raise InjectedFault(errno.EIO, "injected I/O error at operation "
                                 "%d (%s %s)" % (idx, kind, detail))
         self.ops.append((kind, path, path2, detail))
         if self.fired:
             self.after_fault.append((kind, path, path2, detail))
+        return False
+
+    def raise_after(self, kind, detail=""):
+        raise InjectedFault(errno.EIO, "injected I/O error reported after "
+                            "operation %d (%s %s)" % (len(self.ops) - 1, kind,
+                                                      detail))
 
 
 _REC = None
@@ -124,12 +135,15 @@ def _wrap(owner, attr, kind, pathfn, detailfn=None):
                 detail = detailfn(*a, **kw)
             except Exception:
                 detail = "?"
-        rec.hit(kind, path, None, detail)
+        post = rec.hit(kind, path, None, detail)
         rec.depth += 1
         try:
-            return orig(*a, **kw)
+            res = orig(*a, **kw)
         finally:
             rec.depth -= 1
+        if post:
+            rec.raise_after(kind, detail)
+        return res
     wrapper.__wrapped__ = orig
     wrapper.__name__ = getattr(orig, "__name__", attr)
     setattr(owner, attr, wrapper)
@@ -160,12 +174,14 @@ def install():
             kind = "open-w"
         else:
             kind = "open-a"
-        rec.hit(kind, path, None, m)
+        post = rec.hit(kind, path, None, m)
         rec.depth += 1
         try:
-            return orig_init(self, name, mode, *a, **kw)
+            orig_init(self, name, mode, *a, **kw)
         finally:
             rec.depth -= 1
+        if post:
+            rec.raise_after(kind, m)
     file_init.__wrapped__ = orig_init
     h5py.File.__init__ = file_init
 
@@ -175,12 +191,15 @@ def install():
         rec = _REC
         if rec is None or rec.depth > 0 or not self.id.valid:
             return orig_close(self)
-        rec.hit("close", _fname(self), None, getattr(self, "mode", "?"))
+        post = rec.hit("close", _fname(self), None,
+                       getattr(self, "mode", "?"))
         rec.depth += 1
         try:
-            return orig_close(self)
+            orig_close(self)
         finally:
             rec.depth -= 1
+        if post:
+            rec.raise_after("close")
     file_close.__wrapped__ = orig_close
     h5py.File.close = file_close
 
@@ -237,13 +256,16 @@ def install():
         names = ["src_loc", "src_name", "dst_loc", "dst_name"]
         full = dict(zip(names, a))
         full.update(kw)
-        rec.hit("copy", _fname(full["dst_loc"]), None,
-                os.fsdecode(full["dst_name"]))
+        post = rec.hit("copy", _fname(full["dst_loc"]), None,
+                       os.fsdecode(full["dst_name"]))
         rec.depth += 1
         try:
-            return orig_copy(*a, **kw)
+            res = orig_copy(*a, **kw)
         finally:
             rec.depth -= 1
+        if post:
+            rec.raise_after("copy")
+        return res
     h5o_copy.__wrapped__ = orig_copy
     h5py.h5o.copy = h5o_copy
 
@@ -262,12 +284,15 @@ def install():
                 return orig(src, dst, *a, **kw)
             if not (rec.inside(s) or rec.inside(d)):
                 return orig(src, dst, *a, **kw)
-            rec.hit("rename", s, d, name)
+            post = rec.hit("rename", s, d, name)
             rec.depth += 1
             try:
-                return orig(src, dst, *a, **kw)
+                res = orig(src, dst, *a, **kw)
             finally:
                 rec.depth -= 1
+            if post:
+                rec.raise_after("rename")
+            return res
         wrapper.__wrapped__ = orig
         setattr(os, name, wrapper)
 
@@ -284,12 +309,15 @@ def install():
                 return orig(path, *a, **kw)
             if not rec.inside(p):
                 return orig(path, *a, **kw)
-            rec.hit("unlink", p, None, name)
+            post = rec.hit("unlink", p, None, name)
             rec.depth += 1
             try:
-                return orig(path, *a, **kw)
+                res = orig(path, *a, **kw)
             finally:
                 rec.depth -= 1
+            if post:
+                rec.raise_after("unlink")
+            return res
         wrapper.__wrapped__ = orig
         setattr(os, name, wrapper)
 
